@@ -149,8 +149,27 @@ func (w *gramWalk) isStream(e ast.Expr) bool {
 
 func (w *gramWalk) block(list []ast.Stmt) []gtok {
 	var out []gtok
+	prevStart := -1 // where the tokens of the previous statement begin in out
 	for _, s := range list {
+		// `x, err := read(...)` followed by `if err != nil { if err == io.EOF { return nil }; return err }` is the split form of
+		// `if x, err := read(...); err != nil { … }`: the clean end of stream is an early exit in front of that read
+		if is, ok := s.(*ast.IfStmt); ok && is.Init == nil && prevStart >= 0 && prevStart < len(out) && mentionsErr(is.Cond) &&
+			(eofExit(is.Body) || (mentionsEOF(is.Cond) && returnsNilError(is.Body))) && len(w.block(is.Body.List)) == 0 && is.Else == nil {
+			tail := append([]gtok{}, out[prevStart:]...)
+			out = append(out[:prevStart], gtok{kind: "EARLYEXIT", pos: is.Pos()})
+			out = append(out, tail...)
+			prevStart = -1
+			continue
+		}
+		start := len(out)
 		out = append(out, w.stmt(s)...)
+		prevStart = -1
+		if len(out) > start {
+			switch s.(type) {
+			case *ast.AssignStmt, *ast.DeclStmt:
+				prevStart = start
+			}
+		}
 	}
 	return out
 }
@@ -280,6 +299,24 @@ func (w *gramWalk) stmt(s ast.Stmt) []gtok {
 		return []gtok{{kind: "REP", sub: body, pos: y.Pos()}}
 	case *ast.SwitchStmt:
 		var out []gtok
+		if y.Init != nil {
+			out = w.stmt(y.Init)
+		}
+		if y.Tag != nil {
+			out = append(out, w.expr(y.Tag)...)
+		}
+		if len(out) > 0 {
+			// `switch _, err := read(...); err { case nil: case io.EOF: return nil; default: return err }`
+			for _, cc := range y.Body.List {
+				if cl, ok := cc.(*ast.CaseClause); ok {
+					for _, e := range cl.List {
+						if mentionsEOF(e) && returnsNilError(&ast.BlockStmt{List: cl.Body}) {
+							out = append([]gtok{{kind: "EARLYEXIT", pos: cl.Pos()}}, out...)
+						}
+					}
+				}
+			}
+		}
 		for _, cc := range y.Body.List {
 			if cl, ok := cc.(*ast.CaseClause); ok {
 				if b := w.block(cl.Body); len(b) > 0 {
